@@ -44,7 +44,11 @@ ROUNDS = [("/tmp/det_all.log", "round 1 (machinery as first built, commit ba9e68
           ("/tmp/try_w4a.log", "wave 4, first evaluation with the machinery frozen at commit c8b65a0 (descriptions not used)"),
           ("/tmp/try_w4b.log", "wave 4, first evaluation with the machinery frozen at commit c8b65a0 (descriptions not used)"),
           ("/tmp/try_w4c.log", "final machinery (commit 7e0a4e5, after the strengthening that followed wave 4)"),
-          ("/tmp/try_w4d.log", "final machinery (commit 7e0a4e5, after the strengthening that followed wave 4)")]
+          ("/tmp/try_w4d.log", "final machinery (commit 7e0a4e5, after the strengthening that followed wave 4)"),
+          ("/tmp/try_w5a.log", "wave 5, first evaluation with the machinery frozen at commit 7e0a4e5 (descriptions not used)"),
+          ("/tmp/try_w5b.log", "wave 5, first evaluation with the machinery frozen at commit 7e0a4e5 (descriptions not used)"),
+          ("/tmp/try_w5c.log", "final machinery (after the strengthening that followed wave 5)"),
+          ("/tmp/try_w5d.log", "final machinery (after the strengthening that followed wave 5)")]
 det = []
 base = os.path.basename(patchfile)
 for f, label in ROUNDS:
